@@ -16,15 +16,20 @@ using namespace Vector::BLF;
 static const long long INF = std::numeric_limits<std::streamsize>::max();
 
 struct ByteModel {
-    std::vector<uint8_t> data;
+    std::vector<uint8_t> data;           // the bytes really written, without the gaps
+    struct Gap { long long at, len; };   // stretches that were appended as containers of declared size only: never read, only skipped
+    std::vector<Gap> gaps;
     long long g = 0, p = 0, gc = 0, fs = INF, L = 0;
     bool failed = false, eof = false;
+    bool touches_gap(long long a, long long b) const { for (auto & x : gaps) if (a < x.at + x.len && x.at < b) return true; return false; }
+    size_t idx(long long pos) const { long long sub = 0; for (auto & x : gaps) if (x.at < pos) sub += x.len; return (size_t)(pos - sub); }
+    const Gap * gap_at_or_after(long long pos) const { for (auto & x : gaps) if (x.at + x.len > pos) return &x; return nullptr; }
 };
 
 static uint8_t byteval(uint64_t seed, uint64_t idx) { return (uint8_t)(Rng::mix(seed ^ 0xB17E, idx) >> 17); }
 
 static int run_c15(uint64_t seed, long from, long to) {
-    long ops = 0, reads = 0, shortreads = 0, drops = 0, wholes = 0, seeks = 0, straddle = 0, hist = 0;
+    long ops = 0, reads = 0, shortreads = 0, drops = 0, wholes = 0, seeks = 0, straddle = 0, hist = 0, gapsmade = 0, gapjumps = 0, beyond4g = 0, reads_beyond4g = 0;
     std::set<uint64_t> sigs;
     std::string sample;
     for (long it = from; it < to; it++) {
@@ -72,6 +77,7 @@ static int run_c15(uint64_t seed, long from, long to) {
                 // while the declared end lies ahead of the put position, only reads that are already satisfiable are generated
                 bool wouldblock = !((n + m.g <= m.p) || (n + m.g > m.fs && m.fs <= m.p));
                 if (wouldblock) continue;
+                if (m.touches_gap(m.g, std::min(m.g + n, m.fs))) continue;       // the contents of a skipped stretch are not defined
                 std::vector<char> s(n + 1, 0x55);
                 u.read(s.data(), n);
                 reads++;
@@ -79,7 +85,8 @@ static int run_c15(uint64_t seed, long from, long to) {
                 long long exp;
                 if (n + m.g > m.fs) { exp = std::max(0LL, m.fs - m.g); m.failed = m.eof = true; noreads = true; shortreads++; }
                 else { exp = n; m.failed = m.eof = false; }
-                if (exp > 0 && (m.g + exp > (long long)m.data.size() || memcmp(s.data(), m.data.data() + m.g, exp) != 0)) {
+                if (m.g >= (1LL << 32)) reads_beyond4g++;
+                if (exp > 0 && (m.idx(m.g) + (size_t)exp > m.data.size() || memcmp(s.data(), m.data.data() + m.idx(m.g), exp) != 0)) {
                     hc::viol("read-bytes-differ", "history " + std::to_string(it) + ": " + h.str()); bad = true; break;
                 }
                 if (s[exp] != 0x55) { hc::viol("read-writes-past-count", "history " + std::to_string(it) + ": " + h.str()); bad = true; break; }
@@ -90,6 +97,8 @@ static int run_c15(uint64_t seed, long from, long to) {
             } else if (op == 6) {               // relative seek
                 long long k2 = (long long)r.below(9) - 4;
                 if (r.chance(1, 10)) k2 = (long long)r.below(2 * c + 1);
+                const ByteModel::Gap * ga = m.gap_at_or_after(m.g);
+                if (ga && ga->at - m.g <= 3 * (long long)c && r.chance(2, 3)) { k2 = ga->at + ga->len - m.g; gapjumps++; }     // the way the reader skips an object it does not decode
                 if (k2 < 0 && m.g + k2 < m.L) continue;
                 u.seekg(k2);
                 m.g = std::min(m.g + k2, m.fs);
@@ -104,10 +113,24 @@ static int run_c15(uint64_t seed, long from, long to) {
                 if (v < m.g) continue;          // declared end below the get position is outside the model
                 u.setFileSize(v); m.fs = v;
                 h << "fs" << v << " ";
+            } else if (r.chance(1, 2) && m.gaps.size() < 3 && m.fs == INF) {
+                // a container that declares G bytes and is only ever skipped: positions beyond 4 GiB without 4 GiB of memory. G is chosen
+                // so that the position behind it is congruent modulo 2^32 to a position near the data still held.
+                if (mid) { u.nextLogContainer(); h << "nlc "; mid = false; }
+                long long d = r.chance(1, 2) ? (long long)r.below(3 * c + 2) : std::min(m.p - m.L, (long long)r.below(4 * c + 2));
+                long long G = r.chance(3, 4) ? (1LL << 32) - d : 0xFFFFFF00LL - (long long)r.below(512);
+                if (G <= 0 || G > 0xFFFFFFFFLL) G = 0xFFFFFFFFLL;
+                std::shared_ptr<LogContainer> lc(new LogContainer);
+                lc->uncompressedFileSize = (uint32_t)G;
+                u.write(lc);
+                ByteModel::Gap ng; ng.at = m.p; ng.len = G; m.gaps.push_back(ng);
+                m.p += G; gapsmade++;
+                h << "G" << G << " ";
             } else {
                 c = 1 + r.below(64); u.setDefaultLogContainerSize(c); h << "c" << c << " ";
             }
             ops++;
+            if (m.p >= (1LL << 32)) beyond4g++;
             long long etg = m.failed ? -1 : m.g, etp = m.failed ? -1 : m.p;
             long long tg = (long long)u.tellg(), tp = (long long)u.tellp(), fs = (long long)u.fileSize();
             bool good = u.good(), eof = u.eof();
@@ -123,12 +146,20 @@ static int run_c15(uint64_t seed, long from, long to) {
         }
         // final drain: everything written and not yet read is still there, in order (dropping never discards unread bytes)
         if (!bad && !noreads && m.g <= m.p && m.fs >= m.p) {
-            long long n = m.p - m.g;
-            std::vector<char> s(n + 1, 0x55);
-            u.read(s.data(), n);
-            if ((long long)u.gcount() != n || (n > 0 && memcmp(s.data(), m.data.data() + m.g, n) != 0))
-                hc::viol("final-drain-differs", "history " + std::to_string(it) + ": " + h.str());
-            reads++;
+            while (m.g < m.p) {
+                const ByteModel::Gap * ga = m.gap_at_or_after(m.g);
+                if (ga && ga->at <= m.g) { long long k2 = ga->at + ga->len - m.g; u.seekg(k2); m.g += k2; h << "s" << k2 << " "; continue; }
+                long long n = (ga ? ga->at : m.p) - m.g;
+                std::vector<char> s(n + 1, 0x55);
+                u.read(s.data(), n);
+                h << "r" << n << " ";
+                if ((long long)u.gcount() != n || (n > 0 && memcmp(s.data(), m.data.data() + m.idx(m.g), n) != 0)) {
+                    hc::viol("final-drain-differs", "history " + std::to_string(it) + ": " + h.str()); break;
+                }
+                if (m.g >= (1LL << 32)) reads_beyond4g++;
+                m.g += n;
+                reads++;
+            }
         }
         hist++;
         sigs.insert(sig);
@@ -136,7 +167,7 @@ static int run_c15(uint64_t seed, long from, long to) {
     }
     std::ostringstream o;
     o << "{\"histories\":" << hist << ",\"ops\":" << ops << ",\"reads\":" << reads << ",\"short_reads\":" << shortreads << ",\"drops\":" << drops << ",\"whole_containers\":" << wholes
-      << ",\"seeks\":" << seeks << ",\"writes_straddling_containers\":" << straddle << ",\"distinct\":" << sigs.size() << ",\"samples\":[" << hc::jstr(sample) << "]}";
+      << ",\"seeks\":" << seeks << ",\"skipped_stretches_of_about_4GiB\":" << gapsmade << ",\"seeks_over_them\":" << gapjumps << ",\"ops_with_put_position_beyond_4GiB\":" << beyond4g << ",\"reads_at_positions_beyond_4GiB\":" << reads_beyond4g << ",\"writes_straddling_containers\":" << straddle << ",\"distinct\":" << sigs.size() << ",\"samples\":[" << hc::jstr(sample) << "]}";
     hc::stat(o.str());
     return 0;
 }
